@@ -7,7 +7,11 @@
  * stdin, one run per line:
  *   run <id> <senders> <lines_per_sender> <delay> <quiesce> <wfail> seed <seed> <stay_pct> <spurious_permille>
  *   run <id> <senders> <lines_per_sender> <delay> <quiesce> <wfail> list <k> <pick>*k  (replay of a recorded schedule)
- *     wfail   = k > 0: every k-th call of the recording writer's write() reports a failure (the line is recorded first)
+ *     wfail   = k > 0: every k-th write to the SINK fails and the sink then works again (disk full, then space again).
+ *               The sink is a FILE* made with fopencookie (unbuffered): under the channels it sits behind the library's
+ *               own file writer (aws_log_writer_init_file), which the recording writer calls after recording the line,
+ *               returning its result; the no-alloc logger fwrite()s to it directly.  `O sink ...` / `F <hex>` report what
+ *               reached it.
  *     delay   = schedule points the main thread lets pass before it stops the senders and calls clean-up
  *     quiesce = 1: before clean-up the main thread waits until every sender has sent everything, then gives
  *               the background thread up to 400 schedule points to drain (lost wake-up check)
@@ -30,6 +34,9 @@
  * use-after-free of the caller's making, not a behaviour of the channel.  What races is clean-up against the
  * background thread's draining and the senders against each other and the background thread.
  */
+#ifndef _GNU_SOURCE
+#    define _GNU_SOURCE /* fopencookie */
+#endif
 #include "detsched.h"
 #include "h_common.h"
 #include <aws/common/log_channel.h>
@@ -38,6 +45,7 @@
 #include <aws/common/log_writer.h>
 #include <aws/common/logging.h>
 #include <aws/common/string.h>
+#include <errno.h>
 #include <pthread.h>
 #include <stdarg.h>
 #include <stdlib.h>
@@ -178,6 +186,40 @@ static bool s_parse_line(const uint8_t *p, size_t len, const char *msg, char *ti
     return (size_t)(end - tid_end) == rl && memcmp(tid_end, rest, rl) == 0;
 }
 
+/* ---- the sink: a FILE* whose writes fail on schedule and then work again ---- */
+static FILE *s_sink;
+static uint8_t *s_sink_buf, *s_expect_buf;
+static size_t s_sink_len, s_sink_cap, s_expect_len, s_expect_cap, s_sink_calls, s_sink_failures;
+static int s_sink_fail_period;
+static void s_append(uint8_t **buf, size_t *len, size_t *cap, const void *p, size_t n) {
+    if (*len + n > *cap) {
+        *cap = (*len + n) * 2 + 256;
+        *buf = realloc(*buf, *cap);
+    }
+    memcpy(*buf + *len, p, n);
+    *len += n;
+}
+static ssize_t s_sink_write(void *cookie, const char *buf, size_t n) {
+    (void)cookie;
+    ++s_sink_calls;
+    if (s_sink_fail_period > 0 && s_sink_calls % (size_t)s_sink_fail_period == 0) {
+        ++s_sink_failures;
+        errno = ENOSPC;
+        return 0;
+    }
+    s_append(&s_sink_buf, &s_sink_len, &s_sink_cap, buf, n);
+    return (ssize_t)n;
+}
+static void s_sink_open(int fail_period) {
+    cookie_io_functions_t io = {.read = NULL, .write = s_sink_write, .seek = NULL, .close = NULL};
+    s_sink_len = s_expect_len = s_sink_calls = s_sink_failures = 0;
+    s_sink_fail_period = fail_period;
+    s_sink = fopencookie(NULL, "w", io);
+    HC_CHECK(s_sink != NULL);
+    setvbuf(s_sink, NULL, _IONBF, 0);
+}
+static struct aws_log_writer s_file_writer; /* the library's file writer on top of the sink */
+
 /* ---- recording writer ---- */
 static size_t s_written, s_destroyed_at_return;
 static bool s_cleanup_returned;
@@ -211,10 +253,12 @@ static int s_rec_write(struct aws_log_writer *writer, const struct aws_string *o
         s_observe("MONITOR write after clean-up returned");
     }
     ++s_wcalls;
-    if (s_wfail_period > 0 && s_wcalls % (size_t)s_wfail_period == 0) {
-        return aws_raise_error(AWS_ERROR_FILE_WRITE_FAILURE);
+    /* hand the line on to the library's file writer; its fwrite fails when the sink says so */
+    int rc = (s_file_writer.vtable->write)(&s_file_writer, output);
+    if (rc == AWS_OP_SUCCESS) {
+        s_append(&s_expect_buf, &s_expect_len, &s_expect_cap, output->bytes, output->len);
     }
-    return AWS_OP_SUCCESS;
+    return rc;
 }
 static void s_rec_clean_up(struct aws_log_writer *writer) {
     (void)writer;
@@ -268,6 +312,9 @@ static void s_main(void *arg) {
     s_writer.vtable = &s_rec_vtable;
     s_writer.allocator = hc_allocator();
     s_writer.impl = NULL;
+    s_sink_open(s_wfail_period);
+    struct aws_log_writer_file_options wo = {.filename = NULL, .file = s_sink};
+    HC_CHECK(aws_log_writer_init_file(&s_file_writer, hc_allocator(), &wo) == AWS_OP_SUCCESS);
     if (s_foreground) {
         HC_CHECK(aws_log_channel_init_foreground(&s_channel, hc_allocator(), &s_writer) == AWS_OP_SUCCESS);
     } else {
@@ -304,6 +351,10 @@ static void s_main(void *arg) {
     s_cleanup_returned = true;
     aws_logger_clean_up(&s_logger);
     aws_log_formatter_clean_up(&s_formatter);
+    aws_log_writer_clean_up(&s_file_writer);
+    s_observe(
+        "sink failures=%zu bytes=%zu expected=%zu match=%d", s_sink_failures, s_sink_len, s_expect_len,
+        s_sink_len == s_expect_len && (s_sink_len == 0 || memcmp(s_sink_buf, s_expect_buf, s_sink_len) == 0));
     size_t destroyed = 0;
     for (int i = 0; i < MAX_SENDERS; ++i) {
         for (int k = 0; k < MAX_LINES; ++k) {
@@ -339,16 +390,15 @@ static void *s_na_thread(void *arg) {
         ds_yield(TAG_IDLE);
         char text[160];
         s_na_text(text, sizeof(text), i, k);
-        /* logger level is INFO: every third call is a DEBUG call and must leave no trace */
-        if (k % 3 == 2) {
-            AWS_LOGF_DEBUG(AWS_LS_COMMON_GENERAL, "%s", text);
+        /* logger level is INFO: every third call is a DEBUG call and must leave no trace.  The gate is
+         * aws_logger_get_conditional (so that the result of the log call can be observed) */
+        enum aws_log_level lvl = k % 3 == 2 ? AWS_LL_DEBUG : (k % 3 == 1 ? AWS_LL_ERROR : AWS_LL_INFO);
+        struct aws_logger *lg = aws_logger_get_conditional(AWS_LS_COMMON_GENERAL, lvl);
+        if (lg == NULL) {
             s_observe("filtered t%d %d", i, k);
-        } else if (k % 3 == 1) {
-            AWS_LOGF_ERROR(AWS_LS_COMMON_GENERAL, "%s", text);
-            s_observe("logged t%d %d ERROR", i, k);
         } else {
-            AWS_LOGF_INFO(AWS_LS_COMMON_GENERAL, "%s", text);
-            s_observe("logged t%d %d INFO", i, k);
+            int rc = lg->vtable->log(lg, lvl, AWS_LS_COMMON_GENERAL, "%s", text);
+            s_observe("logged t%d %d %s rc=%s", i, k, lvl == AWS_LL_ERROR ? "ERROR" : "INFO", rc == AWS_OP_SUCCESS ? "OK" : "ERR");
         }
     }
     return NULL;
@@ -356,8 +406,8 @@ static void *s_na_thread(void *arg) {
 
 static void s_main_noalloc(void *arg) {
     (void)arg;
-    s_na_file = tmpfile();
-    HC_CHECK(s_na_file != NULL);
+    s_sink_open(s_wfail_period);
+    s_na_file = s_sink;
     struct aws_logger_standard_options o = {.level = AWS_LL_INFO, .file = s_na_file};
     HC_CHECK(aws_logger_init_noalloc(&s_na_logger, hc_allocator(), &o) == AWS_OP_SUCCESS);
     aws_logger_set(&s_na_logger);
@@ -437,18 +487,16 @@ int main(void) {
         while (oi < s_nobs) {
             printf("O %s\n", s_obs[oi++].text);
         }
-        if (s_cfg.quiesce == 3 && s_na_file != NULL) {
-            fflush(s_na_file);
-            long len = ftell(s_na_file);
-            uint8_t *buf = malloc(len > 0 ? (size_t)len : 1);
-            rewind(s_na_file);
-            size_t got = fread(buf, 1, (size_t)(len > 0 ? len : 0), s_na_file);
+        if (s_cfg.quiesce == 3) {
+            printf("O sink failures=%zu bytes=%zu\n", s_sink_failures, s_sink_len);
             printf("F ");
-            hc_put_hex(buf, got);
+            hc_put_hex(s_sink_buf, s_sink_len);
             printf("\n");
-            free(buf);
-            fclose(s_na_file);
             s_na_file = NULL;
+        }
+        if (s_sink != NULL) {
+            fclose(s_sink);
+            s_sink = NULL;
         }
         const int *sched;
         size_t ns = ds_schedule(&sched);
